@@ -1,6 +1,6 @@
 (* Properties_C10.v — obligations of property C10 (the AF list is exactly the set of valid FM
    codes received in 0A). *)
-Require Import ObsRun Lemmas_AfHist Lemmas_CbAf Lemmas_ObsAf.
+Require Import ObsRun Lemmas_AfHist Lemmas_CbAf Lemmas_ObsAf Lemmas_Leaf.
 Local Open Scope Z_scope.
 
 (* For EVERY history, after every call, the 26-byte bitmap the AF getter returns is
@@ -50,6 +50,12 @@ Theorem C10_observer : forall conv lut h s o ret, reach conv lut h s -> wf_op o 
   obs_C10 (o :: h) (snap_of s) (snap_of (fst (step conv lut s o))) (snd (step conv lut s o)) ret = true.
 Proof. exact obs_C10_holds. Qed.
 Print Assumptions C10_observer.
+
+(* THE CODE ITSELF: the two AF code extractors, translated from clang's typed AST on every run *)
+Theorem C10_code_af : forall d0 d1 d2 d3, 0 <= d2 < 65536 ->
+  c_get_af1 d0 d1 d2 d3 = get_af1 d2 /\ c_get_af2 d0 d1 d2 d3 = get_af2 d2.
+Proof. intros d0 d1 d2 d3 H. split; [apply leaf_get_af1|apply leaf_get_af2]; exact H. Qed.
+Print Assumptions C10_code_af.
 
 Example C10_scenario : check_run_u (observer_u 10) scenario = true.
 Proof. vm_compute. reflexivity. Qed.
